@@ -40,6 +40,7 @@ def execOp (g : Unit → List CPt × List CPt) (op : String) (args : List String
   | "mprove" => opMprove args
   | "forge" => opForge args
   | "decode" => opDecode args
+  | "serde" => opDecode args     -- bincode of these types is the raw encodings back to back; round trips are checked by the harness
   | "extract" => opExtract args
   | "fromstr" => opFromStr args
   | "tostr" => opToStr args
